@@ -103,6 +103,16 @@ def make_hydro(eos: E.EOS, Tn: float, tol: dict, ranges=None, window=None):
 
     th = eos.thermo(Tn, ranges)
     tmin, tmax = window if window else (TMIN, TMAX)
+    # The Thermodynamics object has been used before - by ANOTHER Hydrodynamics object with the same settings at another nucleation
+    # temperature, the way a scan over Tn re-uses one equation of state (thermo.Tnucl = Tn; Hydrodynamics(thermo, ...)). Nothing of
+    # that earlier object may reach the one under test (every relation of C02/C03/C05/C06/C15 is judged on the second object).
+    try:
+        th.Tnucl = 0.93 * Tn
+        WallGo.Hydrodynamics(th, tmax, tmin, tol["rtol"], tol["atol"])
+    except Exception:  # noqa: BLE001 - the earlier point of the scan need not be a good one
+        pass
+    finally:
+        th.Tnucl = Tn
     return WallGo.Hydrodynamics(th, tmax, tmin, tol["rtol"], tol["atol"]), th
 
 
